@@ -108,3 +108,28 @@ def paren_depth(ctx, prop, base, depth=4000):
     ctx.count(("paren-depth",), True, "known-finding-scenarios")
     _judge(ctx, prop, "paren-depth", "parentheses nested %d deep: build_matcher_tree recurses once per '(' with a large frame and overflows the stack" % depth,
            rc == 0 and out == b"a\n", rc < 0 and b"overflowed its stack" in err and out == b"", "exit %d, output %r" % (rc, out))
+
+
+def unprivileged(base):
+    """a prefix that runs a command as an unprivileged user (the checks run as root, which no permission bit stops), or None where that is
+    not possible or the directory cannot be reached by that user"""
+    import shutil
+    sp = shutil.which("setpriv")
+    if sp is None or os.geteuid() != 0:
+        return None
+    pre = [sp, "--reuid=65534", "--regid=65534", "--clear-groups"]
+    d = base
+    while d.startswith(fw.BUILD.encode() + b"/"):          # the scratch directories are ours: let others pass through them
+        os.chmod(d, os.stat(d).st_mode | 0o055)
+        d = os.path.dirname(d)
+    try:
+        ok = subprocess.run(pre + ["/bin/ls", base.decode()], stdout=subprocess.DEVNULL, stderr=subprocess.DEVNULL, timeout=30).returncode == 0
+    except OSError:
+        ok = False
+    return pre if ok else None
+
+
+def chown_tree(base, uid=65534):
+    for root, dirs, files in os.walk(base):
+        for n in [root] + [os.path.join(root, f) for f in files]:
+            os.lchown(n, uid, uid)
